@@ -1,10 +1,55 @@
 import QuillModel.Rot.Model
 /-!
-Rendering of the abstract names as the strings `RotatingSink::_get_filename` produces (base `log.log`), used by
-the driver only: `log[.<suffix>][.<index>].log`, suffix = `%Y%m%d` of the civil day or `%Y%m%d_%H%M%S` of the civil
-second (proleptic Gregorian calendar, civil-from-days).
+Rendering of the abstract names as the strings the sink produces, for **any base file name**:
+`FileSink::extract_stem_and_extension` (`splitExt`, the rules of `std::filesystem::path::stem/extension`: the extension
+starts at the last `.`; a leading `.` alone — hidden file — and the names `.` / `..` have none),
+`_append_string_to_filename` / `_append_index_to_filename` (`withExt`), `_get_filename` (`getFilename`: suffix first, then
+the index, each time **re-splitting** the name — which is why a base without extension gets `base.<index>.<date>`),
+`FileSink::append_datetime_to_filename` (`appendDatetime`, FilenameAppendOption), and the filter of the directory scan of
+`_clean_and_recover_files` (`scanSees`: same extension, name starts with `stem.`). File names are `List Char`; the
+directory part of a path is not modelled (`extension()` looks at the last component only).
+Suffix = `%Y%m%d` of the civil day or `%Y%m%d_%H%M%S` of the civil second (proleptic Gregorian calendar).
+The string-level theorems are in `Rot/RenderThm.lean`.
 -/
 namespace Rot
+
+/-- `(stem, extension)` of a file name as `std::filesystem::path` splits it -/
+def splitExt (f : List Char) : List Char × List Char :=
+  if f = ['.', '.'] then (f, [])
+  else
+    let r := f.reverse
+    let e := r.takeWhile (· ≠ '.')
+    match r.dropWhile (· ≠ '.') with
+    | [] => (f, [])                       -- no dot
+    | _ :: stemRev =>
+      if stemRev = [] then (f, [])        -- the only dot leads the name: hidden file, no extension
+      else (stemRev.reverse, '.' :: e.reverse)
+
+/-- `stem + "." + text + ext` -/
+def withExt (f t : List Char) : List Char := (splitExt f).1 ++ '.' :: t ++ (splitExt f).2
+
+/-- `_append_string_to_filename` -/
+def appendStr (f t : List Char) : List Char := if t = [] then f else withExt f t
+
+def digits (k : Nat) : List Char := Nat.toDigits 10 k
+
+/-- `_append_index_to_filename` -/
+def appendIdx (f : List Char) (k : Nat) : List Char := if k = 0 then f else withExt f (digits k)
+
+/-- `_get_filename(base, index, date_time)` -/
+def getFilename (base : List Char) (idx : Nat) (dt : List Char) : List Char := appendIdx (appendStr base dt) idx
+
+/-- `FileSink::append_datetime_to_filename`: `stem + strftime(pattern) + ext` (FilenameAppendOption) -/
+def appendDatetime (f stamp : List Char) : List Char := (splitExt f).1 ++ stamp ++ (splitExt f).2
+
+/-- the filter of the directory scans of `_clean_and_recover_files`, applied to a directory entry: same extension as the
+    file name handed to the constructor, and the entry's name starts with that name's `stem + "."` -/
+def scanSees (ctorName entry : List Char) : Bool :=
+  decide ((splitExt entry).2 = (splitExt ctorName).2) && ((splitExt ctorName).1 ++ ['.']).isPrefixOf entry
+
+/-- does the scan see the sink's own first rotated file? `ctorName` = the name handed to the constructor, `base` = the
+    name the sink writes to (different when a FilenameAppendOption is set) -/
+def scanSeesOwn (ctorName base : List Char) : Bool := scanSees ctorName (getFilename base 1 [])
 
 def pad (w : Nat) (n : Nat) : String :=
   let s := toString n
@@ -37,16 +82,27 @@ def renderSfx (sch : Scheme) (v : Int) : String :=
   | .dateTime => renderSec v
   | _ => renderDay v
 
-def renderName (sch : Scheme) : Name → String
-  | .file sfx idx =>
-    "log" ++ (match sfx with | none => "" | some v => "." ++ renderSfx sch v)
-          ++ (if idx = 0 then "" else "." ++ toString idx) ++ ".log"
-  | .junk k => "log.x" ++ toString k ++ ".log"
+/-- the rendered name of a structured name, for the base file name `base` -/
+def renderNameL (base : List Char) (sch : Scheme) : Name → List Char
+  | .file sfx idx => getFilename base idx (match sfx with | none => [] | some v => (renderSfx sch v).toList)
+  | .junk k => (splitExt base).1 ++ ".x".toList ++ digits k ++ (splitExt base).2
   | .foreign k =>
     match k % 4 with
-    | 0 => "other." ++ toString (k / 4 + 1) ++ ".log"
-    | 1 => "log." ++ toString (k / 4 + 1) ++ ".txt"
-    | 2 => "logx." ++ toString (k / 4 + 1) ++ ".log"
-    | _ => "notes" ++ toString (k / 4) ++ ".md"
+    | 0 => "other.".toList ++ digits (k / 4 + 1) ++ (splitExt base).2
+    | 1 => (splitExt base).1 ++ '.' :: digits (k / 4 + 1) ++ ".txt".toList
+    | 2 => (splitExt base).1 ++ "x.".toList ++ digits (k / 4 + 1) ++ (splitExt base).2
+    | _ => "notes".toList ++ digits (k / 4) ++ ".md".toList
+
+def renderNameB (base : String) (sch : Scheme) (n : Name) : String := String.ofList (renderNameL base.toList sch n)
+
+/-- base `log.log` (the harness's default) -/
+def renderName (sch : Scheme) (n : Name) : String := renderNameB "log.log" sch n
+
+/-- a start whose directory scan cannot see the sink's own rotated files (base without extension: finding F28; with a
+    FilenameAppendOption: F29) recovers nothing and cleans nothing — for the bookkeeping it behaves like the DateAndTime
+    scheme's start, whatever the scheme -/
+def restartBlind (z : Nat → Int) (fs : FS) (c : Cfg) (start : Nat) : World :=
+  let w := restart z fs { c with scheme := .dateTime } start
+  { w with sink := { w.sink with cfg := c } }
 
 end Rot
